@@ -658,6 +658,18 @@ Proof.
   - right. eapply ordered_pairs_nth; eassumption.
 Qed.
 
+Lemma nonempty_cons {T} (l : list T) : l <> [] -> exists x t, l = x :: t.
+Proof. destruct l as [|x t]; [congruence|]. intros _. now exists x, t. Qed.
+
+Lemma nth_combine {A B} (l1 : list A) (l2 : list B) i a b :
+  nth_error l1 i = Some a -> nth_error l2 i = Some b -> In (a, b) (combine l1 l2).
+Proof.
+  revert l2 i. induction l1 as [|x t IH]; intros l2 i Hi Hj; [destruct i; discriminate|].
+  destruct l2 as [|y t2]; [destruct i; discriminate|]. destruct i as [|i]; cbn in Hi, Hj.
+  - injection Hi as ->. injection Hj as ->. now left.
+  - right. now apply (IH t2 i).
+Qed.
+
 Lemma sorted_before_segment (v1 pre rk post : list N) : NoDup v1 -> v1 = pre ++ rk ++ post ->
   StronglySorted (fun a b => before v1 a b = true) rk.
 Proof.
@@ -956,5 +968,110 @@ Proof.
     assert (Hav : In a v1) by (rewrite Ev; apply in_or_app; right; apply in_or_app; now left).
     assert (Hbv : In b v1) by (rewrite Ev; apply in_or_app; right; apply in_or_app; now left).
     apply before_v1_to_voter; auto. left. rewrite (Hc a Ha). exact Hf.
+Qed.
+
+Lemma runs_head : exists F1 rest, runs = (true, F1) :: rest.
+Proof.
+  destruct Hhead as (c & t & E & Hc). unfold runs. rewrite E.
+  destruct (proj1 (gen_runs_alt col c t)) as (rk & rest & Er). rewrite Er, Hc. now exists rk, rest.
+Qed.
+
+Lemma vs_length : length vs = length orders.
+Proof. destruct Hlp as (_ & H2). apply Forall2_length in H2. now rewrite map_length in H2. Qed.
+
+Lemma voter_has_order p : In p vs -> exists r, In (p, r) (combine vs orders).
+Proof.
+  intros Hp. apply In_nth_error in Hp. destruct Hp as (i & Hi).
+  assert (Hlt : (i < length orders)%nat) by (rewrite <- vs_length; apply nth_error_Some; congruence).
+  destruct (nth_error orders i) as [r|] eqn:Er; [|apply nth_error_None in Er; lia].
+  exists r. eapply nth_combine; eassumption.
+Qed.
+
+Lemma Forall2_of_combine {A B} (P : A -> B -> Prop) l1 l2 :
+  length l1 = length l2 -> (forall a b, In (a, b) (combine l1 l2) -> P a b) -> Forall2 P l1 l2.
+Proof.
+  revert l2. induction l1 as [|x t IH]; intros [|y t2] Hl H; try discriminate; constructor.
+  - apply H. now left.
+  - apply IH; [now injection Hl|]. intros a b Hab. apply H. now right.
+Qed.
+
+Let F1 := hd [] (f_groups runs).
+Let tmp1 := vs ++ map alt F1.
+Let xl := match tmp1 with [] => 0 | x :: t => qminl x t end.
+Let xr := match tmp1 with [] => 0 | x :: t => qmaxl x t end.
+
+(* the map built by the mirror realises the profile *)
+Theorem assembled :
+  Realised alts orders vs (place_groups alt xl xr delta m 0 (f_groups runs) (g_groups runs)).
+Proof.
+  destruct runs_head as (F1' & rest & Er).
+  assert (EF1 : F1 = F1') by (unfold F1; rewrite Er; reflexivity).
+  rewrite (proj1 (place_groups_runs alt xl xr delta m runs 0) runs_alt).
+  set (P := place_r alt xl xr delta m 0 runs).
+  pose proof (gen_runs_flags col v1) as Hfl. fold runs in Hfl. rewrite Forall_forall in Hfl.
+  assert (HF1 : F1' <> [] /\ forall c, In c F1' -> col c = true).
+  { apply (Hfl (true, F1')). rewrite Er. now left. }
+  destruct HF1 as (HF1ne & HF1c).
+  (* voters *)
+  pose proof vs_length as Hlen.
+  assert (Hone : orders <> []) by (intros E; rewrite E in Hperm; apply Permutation_nil in Hperm; discriminate).
+  assert (Hvne : vs <> []) by (intros E; rewrite E in Hlen; destruct orders; [congruence|discriminate]).
+  destruct (nonempty_cons vs Hvne) as (v0 & vs' & Evs).
+  destruct (nonempty_cons F1' HF1ne) as (t0 & F1t & EF).
+  assert (Etmp : tmp1 = v0 :: (vs' ++ map alt F1')) by (unfold tmp1; rewrite EF1, Evs; reflexivity).
+  assert (Exl : xl = qminl v0 (vs' ++ map alt F1')) by (unfold xl; now rewrite Etmp).
+  assert (Exr : xr = qmaxl v0 (vs' ++ map alt F1')) by (unfold xr; now rewrite Etmp).
+  assert (Hin1 : forall q, In q tmp1 -> xl <= q /\ q <= xr).
+  { intros q Hq. rewrite Etmp in Hq. rewrite Exl, Exr. split; [now apply qminl_spec|now apply qmaxl_spec]. }
+  assert (Hsub : forall q, In q tmp1 -> In q tmp2).
+  { intros q Hq. unfold tmp1 in Hq. unfold tmp2. apply in_app_or in Hq. apply in_or_app. destruct Hq as [Hq|Hq]; [now left|right].
+    apply in_map_iff in Hq. destruct Hq as (c & <- & Hc). apply in_map. apply memb_In. apply HF1c. now rewrite <- EF1. }
+  assert (Hxr_in : In xr tmp1) by (rewrite Exr, Etmp; apply qmaxl_spec).
+  (* later coloured alternatives are outside [xl, xr] *)
+  assert (Hout : all_out alt xl xr rest).
+  { intros run Hrun Hf c Hc. unfold outside. rewrite Exl, Exr.
+    apply (outside_lemma vs (map alt F1') (alt c) v0 vs' (alt t0) (map alt F1t)); [exact Evs|now rewrite EF|].
+    intros p t Hp Ht. apply in_map_iff in Ht. destruct Ht as (tt & <- & Htt).
+    destruct (voter_has_order p Hp) as (r & Hpr).
+    assert (Hr : In r orders) by (eapply in_combine_r; eassumption).
+    pose proof (cross_runs r Hr) as Hcr. fold runs in Hcr. rewrite Er in Hcr. destruct Hcr as (Hcr & _). cbn [snd] in Hcr.
+    apply (lp_closer p r tt c Hpr); [now apply HF1c| |].
+    - destruct (Hfl run) as (_ & Hcc); [rewrite Er; now right|]. rewrite (Hcc c Hc). exact Hf.
+    - apply Hcr; [assumption|]. apply in_concat. exists (snd run). split; [now apply in_map|assumption]. }
+  (* every voter orders the placed alternatives correctly *)
+  assert (Hkeys : map fst P = v1) by (unfold P; rewrite place_r_keys; apply runs_concat).
+  assert (Hndk : NoDup (map fst P)) by (rewrite Hkeys; apply v1_nodup).
+  assert (Hm : (0 < m)%nat).
+  { unfold m. rewrite (Permutation_length v1_perm). destruct Hhead as (c & t & E & _). rewrite E. cbn. lia. }
+  assert (Hvote : forall p r, In (p, r) (combine vs orders) -> vote_realised (posf P) p r).
+  { intros p r Hpr. assert (Hr : In r orders) by (eapply in_combine_r; eassumption).
+    assert (Hp : In p vs) by (eapply in_combine_l; eassumption).
+    assert (Hp1 : In p tmp1) by (unfold tmp1; apply in_or_app; now left).
+    destruct (Hin1 p Hp1) as (Hpl & Hpr').
+    assert (Hxrp : xr - p <= delta).
+    { pose proof (max_abs_diff_bound tmp2 xr p (Hsub _ Hxr_in) (Hsub _ Hp1)) as Hb. fold delta in Hb.
+      pose proof (Qle_Qabs (xr - p)). lra. }
+    pose proof (seq_perm r (order_in_seq r Hr)) as Pr.
+    assert (Hndr : NoDup r) by (eapply Permutation_NoDup; [exact Pr|exact Hnd]).
+    intros i j a b Hij Hi Hj. unfold closer.
+    assert (Ha : In a v1) by (apply (In_perm v1 a v1_perm), (In_perm r a Pr); eapply nth_error_In; eassumption).
+    assert (Hb : In b v1) by (apply (In_perm v1 b v1_perm), (In_perm r b Pr); eapply nth_error_In; eassumption).
+    rewrite <- Hkeys in Ha, Hb. apply in_map_iff in Ha, Hb.
+    destruct Ha as ([a' qa] & Ea & Ha), Hb as ([b' qb] & Eb & Hb). cbn in Ea, Eb. subst a' b'.
+    unfold posf. rewrite (apos_lookup_In P a qa Hndk Ha), (apos_lookup_In P b qb Hndk Hb).
+    assert (Hbef : before r a b = true).
+    { unfold before. rewrite (aidx_nth r i a Hndr Hi), (aidx_nth r j b Hndr Hj). now apply Nat.ltb_lt. }
+    apply (band_order alt xl xr delta m p r col delta_pos Hm Hpl Hpr' Hxrp
+             (fun c Hc => dist_le_delta p c Hp Hc) (fun a b Ha Hb Hab => lp_closer p r a b Hpr Ha Hb Hab)
+             runs 0%nat true runs_alt (runs_wf r Hr)) with (a := a) (b' := b); try assumption.
+    - rewrite Er. cbn. split; [now left|exact Hout].
+    - apply cross_runs. exact Hr. }
+  split; [|split].
+  - intros a Ha. apply (In_perm v1 a v1_perm) in Ha. rewrite <- Hkeys in Ha. apply in_map_iff in Ha.
+    destruct Ha as ([a' qa] & Ea & Ha). cbn in Ea. subst a'. exists qa. now apply apos_lookup_In.
+  - intros r a Hr Ha. pose proof (seq_perm r (order_in_seq r Hr)) as Pr.
+    apply (In_perm r a Pr), (In_perm v1 a v1_perm) in Ha. rewrite <- Hkeys in Ha. apply in_map_iff in Ha.
+    destruct Ha as ([a' qa] & Ea & Ha). cbn in Ea. subst a'. exists qa. now apply apos_lookup_In.
+  - unfold realises. apply Forall2_of_combine; [exact Hlen|exact Hvote].
 Qed.
 End Assembly.
